@@ -14,6 +14,7 @@ import specs.metaclass as metaclass
 import specs.recompute as recompute
 import specs.represent as represent
 import specs.addinv as addinv
+import specs.invfactory as invfactory
 from specs.lib import REG
 
 
@@ -35,6 +36,7 @@ DEFN_UNITS = set(DEFN_CONE)
 import specs.propmerge as propmerge
 U.update(_by_addr(metaclass.META_SPECS))
 U.update(_by_addr([addinv.ADDINV]))
+U.update(_by_addr(invfactory.INVFACTORY_SPECS))
 META_CONE = ["_collapse_invariants", "_collapse_preconditions", "_collapse_postconditions", "_collapse_snapshots", "_decorate_namespace_function", "_decorate_namespace_property",
              "_dbc_decorate_namespace", "DBCMeta.__new__", "invariant.__call__"]
 META_UNITS = set(META_CONE)
@@ -60,7 +62,7 @@ INV_CONE = [
     "_assert_invariant", "_find_self", "_decorate_with_invariants/wrapper[0]", "_decorate_with_invariants/wrapper[1]",
     "_decorate_with_invariants/wrapper[2]", "_decorate_new_with_invariants/wrapper",
 ]
-INV_UNITS = set(INV_CONE) | {"add_invariant_checks"}
+INV_UNITS = set(INV_CONE) | {"add_invariant_checks", "_decorate_with_invariants", "_decorate_new_with_invariants"}
 
 # obligations that exist only because of one property's statement carry meta["props"]; everything else in a unit of
 # the cone counts for every property listed here
@@ -81,10 +83,10 @@ PROPS_LATE = {
                 bounded=[dict(unit="_recompute.py::Visitor.visit_Call / visit_Dict / comprehension visitors, _represent.py::find_lambda_condition / inspect_lambda_condition",
                               script="exprfam.py", bound=EXPR_BOUND)]),
     "C20": dict(units=["repr_values", "generate_message", "_representable"] + COLLECT_CONE, replay="expr", hints=["sorted", "bounded", "large"]),
-    "C03": dict(units=INV_CONE + ["invariant.__call__", "invariant.__init__", "DBCMeta.__new__", "_collapse_invariants", "Invariant.__init__", "add_invariant_checks"],
+    "C03": dict(units=INV_CONE + ["invariant.__call__", "invariant.__init__", "DBCMeta.__new__", "_collapse_invariants", "Invariant.__init__", "add_invariant_checks", "_decorate_with_invariants", "_decorate_new_with_invariants"],
                 replay="inv", hints=["member selection", "nested constructor", "check_on", "constructor defined"],
-                bounded=[dict(unit="_checkers.py::_decorate_with_invariants / _decorate_new_with_invariants (outer factory functions: assumed contracts of add_invariant_checks) "
-                                   "and the composition add_invariant_checks -> wrappers on real classes", script="invfam.py",
+                bounded=[dict(unit="_checkers.py: the composition invariant.__call__ -> add_invariant_checks -> factories -> wrappers on real classes (executed cross-check; "
+                                   "_already_decorated_with_invariants / _walk_decorator_stack is a trusted predicate)", script="invfam.py",
                               bound="52 class programs: 1-3 levels of inheritance x check_on orders {CALL, ALL, CALL+SETATTR, SETATTR+CALL, SETATTR} x member kinds "
                                     "{public, _private, dunder, property, classmethod, staticmethod, async, __setattr__} x constructors calling super().__init__ "
                                     "first/last x operation sequences of <= 12 steps; compared with a reference written from the statement")]),
